@@ -32,7 +32,10 @@ var ActorTypes = ActivityVocabularyTypes{
 // For example, a Profile object might be used as an actor, or a type from an ActivityStreams extension.
 // Actors are retrieved like any other Object in ActivityPub.
 // Like other ActivityStreams objects, actors have an id, which is a URI.
-type CanReceiveActivities Item
+// NOTE(marius): an alias, not a type of its own: an Activity is viewed as an IntransitiveActivity in place, and an actor
+// written through that view under another interface type - even one with the same methods - is not found by a type
+// assertion on the Activity's own actor afterwards (activity.Actor.(IRI) was false for an IRI).
+type CanReceiveActivities = Item
 
 type Actors interface {
 	Actor
